@@ -55,7 +55,7 @@ def configs(tier):
          _cfg(4, 9, maxlast=1, ready=2, flush=0, delays=range(1, 41, 2)),
          _cfg(8, 18, bg_last=[15], flush=0),
          _cfg(8, 10, others=["fin"], flush=0, delays=[1, 11]),
-         _cfg(64, 66, single=0, maxlast=0, bg_last=[63], flush=0, delays=[1, 30, 60])]
+         _cfg(64, 65, single=0, maxlast=0, bg_last=[63, 64], flush=0, delays=[1, 30, 60])]
     return q + t
 
 
